@@ -2,6 +2,10 @@
 // history, optionally all reading one further document through const references. The
 // seeded scheduler decides which thread runs at every basic block of library code.
 // Oracle: each task's observables equal those of its history run alone.
+#include <sys/wait.h>
+#include <unistd.h>
+
+#include <atomic>
 #include <mutex>
 
 #include "hist.hpp"
@@ -82,6 +86,73 @@ void buildShared(JsonVariant dst, const Val& v) {
   }
 }
 
+// ---- `cold` mode: library state that is created on first use (a function-local static behind the deprecated
+// BasicJsonDocument<TAllocator>). Each stage of a plan (warm-up, serial baseline, interleaved run) uses an allocator
+// type of its own, and the whole plan runs in a forked child, so every stage meets that state untouched.
+}  // namespace
+// (ColdAlloc and compatTask have external linkage on purpose: the scheduler recognises library code by the
+// dynamic symbol of the enclosing function, and an instantiation over a type of an unnamed namespace has none)
+template <int N>
+struct ColdAlloc {
+  static std::atomic<int> made;
+  ColdAlloc() {
+    made++;
+  }
+  void* allocate(size_t n) {
+    return malloc(n);
+  }
+  void deallocate(void* p) {
+    free(p);
+  }
+  void* reallocate(void* p, size_t n) {
+    return realloc(p, n);
+  }
+};
+template <int N>
+std::atomic<int> ColdAlloc<N>::made{0};
+
+int g_coldStage = 0;
+
+// (the library code this calls is small enough to be inlined into it, and inlined basic blocks carry the name
+// of the function they end up in: the scheduler treats this one function of the harness as library code)
+template <int N>
+uint64_t compatTask(const Op& head) {
+  uint64_t seed = head.unum("vseed", 1);
+  int n = int(head.num("n", 3));
+  BasicJsonDocument<ColdAlloc<N>> doc(size_t(256));
+  for (int i = 0; i < n; i++) {
+    if (i & 1)
+      doc["k" + std::to_string(i)] = seed + uint64_t(i);
+    else
+      doc["s" + std::to_string(i)] = std::to_string(seed * 31 + uint64_t(i));
+  }
+  std::string out;
+  serializeJson(doc, out);
+  BasicJsonDocument<ColdAlloc<N>> second(size_t(64));
+  second.set(doc);
+  std::string again;
+  serializeJson(second, again);
+  if (again != out)
+    violate("C20:task-violation", "a copy made through BasicJsonDocument differs from its source");
+  return hashStr(out);
+}
+
+namespace {
+uint64_t compatDispatch(const Op& head) {
+  switch (g_coldStage) {
+    case 0:
+      return compatTask<0>(head);
+    case 1:
+      return compatTask<1>(head);
+    default:
+      return compatTask<2>(head);
+  }
+}
+
+int coldMade(int stage) {
+  return stage == 0 ? ColdAlloc<0>::made.load() : stage == 1 ? ColdAlloc<1>::made.load() : ColdAlloc<2>::made.load();
+}
+
 struct TaskSpec {
   Plan plan;
   hist::Options opt;
@@ -92,6 +163,8 @@ struct TaskSpec {
 uint64_t runTask(const TaskSpec& ts) {
   if (ts.family == "hist")
     return hist::runForObs(ts.plan, ts.opt);
+  if (ts.family == "compat")
+    return compatDispatch(ts.plan.head);
   Outcome o = ts.family == "xfer" ? xfer::execute(ts.plan) : sink::execute(ts.plan);
   if (!o.ok)
     throw Violation(o.cls, o.msg);
@@ -130,7 +203,7 @@ std::vector<TaskSpec> tasksOf(const Plan& plan, const JsonDocument* shared, cons
 
 }  // namespace
 
-Outcome execute(const Plan& plan) {
+static Outcome executeInProcess(const Plan& plan) {
   Outcome out;
   Transcript t;
   try {
@@ -200,11 +273,14 @@ Outcome execute(const Plan& plan) {
       // a fresh process and in a long-lived worker
       {
         std::vector<uint64_t> obsWarm(n, 0);
+        g_coldStage = 0;
         auto warm = sched::runSerial(mk(obsWarm), false);
         raise(warm, "serial");
       }
+      g_coldStage = 1;
       auto serial = sched::runSerial(mk(obsSerial), !explicitSchedule);
       raise(serial, "serial");
+      g_coldStage = 2;
       uint64_t totalEvents = 0;
       for (auto& tr : serial.tasks)
         totalEvents += tr.events;
@@ -292,6 +368,19 @@ Outcome execute(const Plan& plan) {
           derived.ops.push_back(o);
         }
         raise(conc, "interleaved");
+        if (mode == "cold") {
+          // run one after the other, the tasks create exactly one allocator object per allocator type
+          if (coldMade(1) > 1)
+            throw HarnessError("cold: the serial baseline created " + std::to_string(coldMade(1)) + " allocator objects");
+          if (coldMade(2) > 1)
+            violate("C20:global-state", "library state created on first use was created " + std::to_string(coldMade(2)) +
+                                            " times under interleaving (once when the tasks run one after the other); schedule:" +
+                                            schedText);
+          count("conc.cold_first_use_checked");
+          if (getenv("SIM_CONC_DEBUG"))
+            fprintf(stderr, "COLD made=%d/%d/%d fired=%llu switches=%llu\n", coldMade(0), coldMade(1), coldMade(2),
+                    (unsigned long long)conc.preemptionsFired, (unsigned long long)conc.switches);
+        }
         for (size_t i = 0; i < n; i++) {
           if (conc.tasks[i].events != serial.tasks[i].events)
             count("conc.event_count_differs");
@@ -375,10 +464,118 @@ Outcome execute(const Plan& plan) {
   return out;
 }
 
+Outcome execute(const Plan& plan) {
+  if (plan.head.str("mode", "parked") != "cold")
+    return executeInProcess(plan);
+  // a child of its own: whatever the library creates on first use has not been created there yet
+  fflush(stdout);
+  fflush(stderr);
+  int fds[2];
+  if (pipe(fds) != 0)
+    throw HarnessError("cold: pipe failed");
+  pid_t pid = fork();
+  if (pid < 0)
+    throw HarnessError("cold: fork failed");
+  if (pid == 0) {
+    close(fds[0]);
+    g_stats.c.clear();  // the child reports what it counted itself
+    g_sketches.m.clear();
+    Outcome o;
+    try {
+      o = executeInProcess(plan);
+    } catch (const HarnessError& e) {
+      o.ok = false;
+      o.cls = "harness";
+      o.msg = e.what();
+    }
+    std::string counters;  // what the child counted travels back with the result
+    for (auto& e : g_stats.c)
+      counters += e.first + "=" + std::to_string(e.second) + ";";
+    std::string text = std::string(o.ok ? "1" : "0") + "\n" + o.cls + "\n" + std::to_string(o.hash) + "\n" + std::to_string(o.obs) + "\n" +
+                       std::to_string(o.steps) + "\n" + (o.nontrivial ? "1" : "0") + "\n" + counters + "\n" + o.msg;
+    size_t off = 0;
+    while (off < text.size()) {
+      ssize_t w = write(fds[1], text.data() + off, text.size() - off);
+      if (w <= 0)
+        break;
+      off += size_t(w);
+    }
+    close(fds[1]);
+    _exit(0);
+  }
+  close(fds[1]);
+  std::string text;
+  char buf[4096];
+  for (;;) {
+    ssize_t g = read(fds[0], buf, sizeof buf);
+    if (g <= 0)
+      break;
+    text.append(buf, size_t(g));
+  }
+  close(fds[0]);
+  int status = 0;
+  waitpid(pid, &status, 0);
+  if (!(WIFEXITED(status) && WEXITSTATUS(status) == 0)) {
+    // the child died (sanitizer report, assertion, signal): die the same way, the driver classifies it from stderr
+    fflush(stdout);
+    if (WIFSIGNALED(status)) {
+      printf("\nCRASH signal %02d (child of a cold plan)\n", WTERMSIG(status));
+      fflush(stdout);
+      _exit(128 + WTERMSIG(status));
+    }
+    _exit(WEXITSTATUS(status));
+  }
+  Outcome o;
+  std::vector<std::string> f;
+  size_t pos = 0;
+  for (int k = 0; k < 7; k++) {
+    size_t e = text.find('\n', pos);
+    if (e == std::string::npos)
+      throw HarnessError("cold: malformed result from the child");
+    f.push_back(text.substr(pos, e - pos));
+    pos = e + 1;
+  }
+  o.ok = f[0] == "1";
+  o.cls = f[1];
+  o.hash = strtoull(f[2].c_str(), nullptr, 10);
+  o.obs = strtoull(f[3].c_str(), nullptr, 10);
+  o.steps = strtoull(f[4].c_str(), nullptr, 10);
+  o.nontrivial = f[5] == "1";
+  o.msg = text.substr(pos);
+  for (size_t a = 0; a < f[6].size();) {
+    size_t e = f[6].find(';', a), q = f[6].find('=', a);
+    if (e == std::string::npos || q == std::string::npos || q > e)
+      break;
+    std::string name = f[6].substr(a, q - a);
+    uint64_t v = strtoull(f[6].substr(q + 1, e - q - 1).c_str(), nullptr, 10);
+    if (name.size() > 4 && name.compare(name.size() - 4, 4, "_xor") == 0)
+      g_stats.c[name] ^= v;
+    else
+      g_stats.c[name] += v;
+    a = e + 1;
+  }
+  if (!o.ok && o.cls == "harness")
+    throw HarnessError(o.msg);
+  count("conc.cold_plans");
+  return o;
+}
+
 Plan generate(const std::string& mode, uint64_t seed, uint64_t run) {
   Rng r(seed);
   Plan p;
   p.head.set("family", "conc").set("mode", mode).setu("seed", seed).setu("run", run);
+  if (mode == "cold") {
+    size_t nt = 2 + size_t(r.below(2));
+    p.head.setu("pseed", r.next() & 0xFFFFFFFF);
+    p.head.setu("np", 1 + r.below(6));
+    p.head.set("dense", r.chance(2, 3) ? 1 : 0);
+    for (size_t i = 0; i < nt; i++) {
+      Op task = mkop("task");
+      task.set("id", int64_t(i)).set("family", "compat").set("n", int64_t(1 + r.below(5))).setu("vseed", r.next() & 0xFFFF);
+      p.ops.push_back(task);
+    }
+    return p;
+  }
   size_t ntasks = 2 + size_t(r.below(3));
   p.head.set("defalloc", r.chance(1, 2) ? 1 : 0);
   if (r.chance(2, 3)) {
